@@ -15,7 +15,7 @@ func init() {
 		r.OnlyProperty = "C29"
 		before := raceLogSize()
 		var what string
-		pick := r.Tape.Weighted(6, 4, 6, 4, 8, 4, 1)
+		pick := r.Tape.Weighted(6, 4, 6, 4, 8, 4, 1, 5)
 		if v := os.Getenv("VERIF_C29_SCENARIO"); v != "" {
 			pick = int(v[0] - '0') // diagnosis only
 		}
@@ -41,6 +41,9 @@ func init() {
 		case 6:
 			what = "join stopped early (LIMIT / error) while an input still has more than a channel's worth of rows to deliver"
 			bigInputEarlyStopScenario(r)
+		case 7:
+			what = "LIMIT / ORDER BY above joins, outer joins and triggers, through the real printers (query stopped early by LIMIT)"
+			checkC05(r)
 		}
 		if after := raceLogSize(); after > before {
 			report := raceLogTail(before)
